@@ -244,7 +244,8 @@ class ConcH:
             flat = b.reshape(-1)
             for i in range(flat.size):
                 if np.isfinite(flat[i]):
-                    flat[i] = flat[i] + 1
+                    # deliberately wrong by more than any tolerance relative to the values at hand
+                    flat[i] = flat[i] + 1 + float(np.max(np.abs(np.where(np.isfinite(b), b, 0)), initial=0))
                     break
         if a.shape != b.shape:
             try:
